@@ -26,12 +26,16 @@ import (
 	"encoding/base64"
 	"errors"
 	"fmt"
+	"io"
 )
 
 var ErrIndexNotInBitstring = errors.New("index not in status list")
 
 const defaultBitstringLengthInBytes = 16 * 1024 // *8 = herd privacy of 16kB or 131072 bit
 const maxBitstringIndex = defaultBitstringLengthInBytes*8 - 1
+
+// maxBitstringLengthInBytes is the maximum size of an expanded bitstring that is accepted (2^27 entries).
+const maxBitstringLengthInBytes = 1024 * defaultBitstringLengthInBytes
 
 var _ sql.Scanner = (*bitstring)(nil)
 var _ driver.Valuer = (*bitstring)(nil)
@@ -143,10 +147,14 @@ func expand(encodedList string) (bitstring, error) {
 	if err != nil {
 		return nil, err
 	}
+	// the list can come from a remote party: bound the size of the expanded list, gzip inflates up to a factor 1000
 	var expanded bytes.Buffer
-	_, err = expanded.ReadFrom(gzr)
+	_, err = expanded.ReadFrom(io.LimitReader(gzr, maxBitstringLengthInBytes+1))
 	if err != nil {
 		return nil, err
+	}
+	if expanded.Len() > maxBitstringLengthInBytes {
+		return nil, fmt.Errorf("status list is larger than %d bytes", maxBitstringLengthInBytes)
 	}
 
 	return expanded.Bytes(), nil
